@@ -26,7 +26,7 @@ RULE = (
     "compactness level; SX or MX. Non-trivial = a compile after an add-after-step or a re-init-after-step, or after "
     ">=2 full steps. Distinct = SHA-1 of the case."
 )
-BUDGET = {"quick": {"examples": 200, "shards": 4}, "thorough": {"fuzz_runs": 3000, "examples": 2500, "shards": 16}}
+BUDGET = {"quick": {"examples": 350, "shards": 4}, "thorough": {"fuzz_runs": 3000, "examples": 2500, "shards": 16}}
 EXPECTED_LABELS = ("step_fail", "restep_all", "manual", "elstep:failed", "replace:dest", "replace:origin", "engine:SX", "engine:MX", "compile:not-ready:raised", "compile:ready:returned", "compile:after-add", "compile:after-reinit",
                    "compile:after-2-steps", "compile:before-any-step", "same-symbols-restep", "late:ramp", "late:link", "late:branch", "late:source",
                    "value-checked")
@@ -67,6 +67,8 @@ def cases(draw):
             ops.append(draw(st.sampled_from([["step_fail", draw(st.integers(0, 2))], ["restep_all", draw(st.integers(0, 2))]])))
         elif c == 6:
             ops.append(draw(st.sampled_from([["add_late"], ["replace", "dest", draw(st.integers(0, 5))], ["replace", "origin", draw(st.integers(0, 5))]])))
+            if ops[-1][0] == "replace" and draw(st.booleans()):
+                ops.append(["compile", draw(st.integers(0, 2))])
         else:
             ops.append(["compile", draw(st.integers(-1, 3))])
     ops.append(["compile", draw(st.integers(0, 2))])
